@@ -59,7 +59,8 @@ def gen_cases(rng, tier, ctx):
         cases.append(G.gen_case(rng, max_depth=md))
     # reduced alphabets (deeper coverage of the core fragment and of single node kinds)
     for kinds in (['const', 'table', 'seq', 'rep', 'for', 'map'], ['const', 'table', 'rev', 'seq', 'rep'],
-                  ['const', 'par', 'arith', 'seq', 'map'], ['table'], ['point', 'multi', 'aarith', 'const', 'seq']):
+                  ['const', 'par', 'arith', 'seq', 'map'], ['table'], ['point', 'multi', 'aarith', 'const', 'seq'],
+                  ['func', 'const', 'seq', 'rev', 'rep', 'for', 'map', 'arith', 'multi']):
         for _ in range(40 if tier == 'quick' else 800):
             cases.append(G.gen_case(rng, max_depth=4, kinds=kinds))
     base = list(cases)
@@ -68,6 +69,9 @@ def gen_cases(rng, tier, ctx):
     # constant siblings at equal voltage around nested non-constant sub-programs (constant folding in to_waveform)
     for _ in range(70 if tier == 'quick' else 1500):
         cases.append(G.gen_fold_case(rng))
+    # single tables over a small alphabet of times / values (de-duplication and constant detection of from_table)
+    for _ in range(90 if tier == 'quick' else 3000):
+        cases.append(G.gen_table_case(rng))
     return cases
 
 
@@ -91,7 +95,8 @@ def expr_str(e):
 
 def build(n):
     from qupulse.pulses import (ConstantPT, TablePT, PointPT, AtomicMultiChannelPT, SequencePT, RepetitionPT, ForLoopPT,
-                                MappingPT, TimeReversalPT, ParallelChannelPT, ArithmeticPT, ArithmeticAtomicPT)
+                                MappingPT, TimeReversalPT, ParallelChannelPT, ArithmeticPT, ArithmeticAtomicPT,
+                                FunctionPT)
     k = n['k']
     if k == 'const':
         return ConstantPT(expr_str(n['d']), {ch: expr_str(e) for ch, e in n['amps']})
@@ -108,6 +113,8 @@ def build(n):
         return AtomicMultiChannelPT(*[build(x) for x in n['subs']])
     if k == 'aarith':
         return ArithmeticAtomicPT(build(n['l']), n['op'], build(n['r']))
+    if k == 'func':
+        return FunctionPT('(%s) + (%s)*t' % (expr_str(n['a']), expr_str(n['b'])), expr_str(n['d']), channel=n['ch'])
     if k == 'seq':
         return SequencePT(*[build(x) for x in n['subs']])
     if k == 'rep':
@@ -298,6 +305,8 @@ def g_atom(n, nm):
         return '(AMulti %s)' % g_list(g_atom(x, nm) for x in n['subs'])
     if k == 'aarith':
         return '(AArith %s %s %s)' % (g_atom(n['l'], nm), 'OpAdd' if n['op'] == '+' else 'OpSub', g_atom(n['r'], nm))
+    if k == 'func':
+        return '(AFunc %s %s %s %s)' % (g_expr(n['d'], nm), nm.c(n['ch']), g_expr(n['a'], nm), g_expr(n['b'], nm))
     raise ValueError(k)
 
 
@@ -382,6 +391,8 @@ def histogram_keys(case, obs):
         keys.append('malformed:' + case['malformed'])
     if case.get('final_triple'):
         keys.append('table-final-triple')
+    if case.get('tables'):
+        keys.append('table-stream')
     if 'fold' in case:
         keys.append('fold-stream')
         keys.append('fold:' + case['fold'].split('/')[1])
